@@ -28,8 +28,18 @@ class P(FlowFidelity):
                     break
             tpls.append((t, o))
         # a template over an element that is missing from the information model (announced, so that data for it is 'undecodable')
-        tm = Tpl(999, [], [(rng.choice([1, 2, 8]), 0, 4), (31000 + rng.randrange(100), 0, 4)])
-        tsets = [g.enc_set(g.tpl_set_id(o), g.enc_tpl(t, o)) for t, o in tpls] + [g.enc_set(g.tpl_set_id(False), g.enc_tpl(tm, False))]
+        # (as an ordinary field after or before a known one, or as the SCOPE field / an option field of an options template)
+        known, missing = (rng.choice([1, 2, 8]), 0, 4), (31000 + rng.randrange(100), 0, 4)
+        shape = rng.choice(["last", "first", "scope", "scope-second", "option"])
+        if shape in ("last", "first"):
+            tm, tm_opts = Tpl(999, [], [known, missing] if shape == "last" else [missing, known]), False
+        elif shape == "scope":
+            tm, tm_opts = Tpl(999, [missing], [known]), True
+        elif shape == "scope-second":
+            tm, tm_opts = Tpl(999, [known, missing], [(rng.choice([1, 2, 8]), 0, 4)]), True
+        else:
+            tm, tm_opts = Tpl(999, [known], [missing]), True
+        tsets = [g.enc_set(g.tpl_set_id(o), g.enc_tpl(t, o)) for t, o in tpls] + [g.enc_set(g.tpl_set_id(tm_opts), g.enc_tpl(tm, tm_opts))]
         m1 = g.enc_msg(tsets)
         dsets = []
         for _ in range(rng.choice([1, 2, 3])):
